@@ -78,6 +78,7 @@ def dispatch (op : String) (args : List SExp) : Option OpResult :=
   | "obj.put" => opObjPut args
   | "obj.sync" => opObjSync args
   | "obj.mget" => opObjMget args
+  | "obj.homeset" => opObjHomeSet args
   | "cli.do" => opCliDo args
   | "cli.ms" => opCliMs args
   | "cli.resp" => opCliResp args
